@@ -466,15 +466,30 @@ func c14Gen(r *mon.Rand) []string {
 			stray()
 		}
 	}
-	// mixing
-	if r.Chance(1, 12) {
-		switch r.Intn(3) {
-		case 0:
-			argv = append(argv, "-D")
-		case 1:
-			argv = append(argv, "-w", "/etc/passwd")
-		case 2:
-			argv = append(argv, "-S", "open")
+	// mixing: one, two or three flags of the other kinds, appended or inserted in front (all three kinds on one
+	// line included)
+	if r.Chance(1, 10) {
+		for i, n := 0, mon.Pick(r, []int{1, 1, 2, 2, 3}); i < n; i++ {
+			var add []string
+			switch r.Intn(6) {
+			case 0:
+				add = []string{"-D"}
+			case 1:
+				add = []string{"-w", "/etc/passwd"}
+			case 2:
+				add = []string{"-S", "open"}
+			case 3:
+				add = []string{"-p", "wa"}
+			case 4:
+				add = []string{"-a", "always,exit"}
+			case 5:
+				add = []string{"-F", "uid=0"}
+			}
+			if r.Chance(1, 3) {
+				argv = append(add, argv...)
+			} else {
+				argv = append(argv, add...)
+			}
 		}
 	}
 	if r.Chance(1, 40) && len(argv) > 0 {
@@ -486,7 +501,7 @@ func c14Gen(r *mon.Rand) []string {
 func init() {
 	register(&mon.CheckSpec{
 		ID: "C14", Level: "exploration",
-		Rule: "cases = argv lists built from a grammar (-a/-A in both orders and with bad parts, -F with valid fields and junk before the field name, every operator and operator look-alike, values containing spaces, tabs, newlines, '=', operator characters, quotes, backslashes; -C; -S/-k comma lists; -p; -w; -D; repeated single-valued flags; stray positional words, '-', '--', unknown flags at every position; delete/watch/syscall flags mixed; a flag missing its argument) joined with the harness's own POSIX single-quote quoting, so the argv is known independently of the library's tokenizer. The harness interprets the argv itself: either 'must be rejected' (with the reason) or the exact rule a faithful parse returns. distinct_nontrivial = distinct lines that contain a quoted argument, a stray word, a repeated flag or a filter whose value holds an operator character or blank.",
+		Rule: "cases = argv lists built from a grammar (-a/-A in both orders and with bad parts, -F with valid fields and junk before the field name, every operator and operator look-alike, values containing spaces, tabs, newlines, '=', operator characters, quotes, backslashes; -C; -S/-k comma lists; -p; -w; -D; repeated single-valued flags; stray positional words, '-', '--', unknown flags at every position; delete/watch/syscall flags mixed two and three ways; a flag missing its argument) joined with the harness's own POSIX single-quote quoting, so the argv is known independently of the library's tokenizer. The harness interprets the argv itself: either 'must be rejected' (with the reason) or the exact rule a faithful parse returns. distinct_nontrivial = distinct lines that contain a quoted argument, a stray word, a repeated flag or a filter whose value holds an operator character or blank.",
 		Assumptions: []string{
 			"an error result is always acceptable (statement: error OR faithful rule); the accepted fraction is reported and a run that accepts nothing is inconclusive",
 			"blanks around list items and between a filter's field name and its operator are compared trimmed (the value of a filter is compared exactly); a repeated single-valued flag with identical values is accepted",
